@@ -167,8 +167,13 @@ func (f c18Factory) Create(address string) (types.Backend, error) {
 	}
 	return r, nil
 }
-func (f c18Factory) SignalToAdd(address, action string) error { return nil }
-func (f c18Factory) VerifyReplicaAlive(address string) bool   { return true }
+// the REAL signalling and liveness probe of backend/remote (HTTP through the in-process transport to the model node)
+func (f c18Factory) SignalToAdd(address, action string) error {
+	return (&remote.Factory{}).SignalToAdd(address, action)
+}
+func (f c18Factory) VerifyReplicaAlive(address string) bool {
+	return (&remote.Factory{}).VerifyReplicaAlive(address)
+}
 
 type c18Frontend struct{ up bool }
 
